@@ -75,6 +75,22 @@ func (st *Stream) Values() []int {
 	return out
 }
 
+// Snapshot copies the first (at most max) recorded values while the stream
+// may still be growing in another goroutine (used by the blow-up watchdog; a
+// torn read of the newest element is harmless there).
+func (st *Stream) Snapshot(max int) []int {
+	rec := st.Rec
+	n := len(rec)
+	if n > max {
+		n = max
+	}
+	out := make([]int, n)
+	for i := 0; i < n; i++ {
+		out[i] = rec[i].V
+	}
+	return out
+}
+
 func (st *Stream) record(kind string, n, v int) int {
 	st.Draws++
 	if v != 0 {
